@@ -1,1 +1,285 @@
-"""rules for c13 (under construction)"""
+"""C13 - data types have value semantics; runs never corrupt caller or logged data (structural clauses)."""
+
+import ast
+import re
+
+from ..cfg import FuncCFG, walk_no_nested
+from ..model import AnalysisError, ClassInfo, qual
+from ..norm import Normalizer
+from ..purity import Purity
+from ..runner import rule
+from .. import facts
+
+DT = 'pySDC/implementations/datatype_classes/'
+INPLACE_DUNDERS = {'__iadd__', '__isub__', '__imul__', '__itruediv__', '__ifloordiv__', '__imod__', '__ipow__', '__imatmul__', '__iand__', '__ior__', '__ixor__', '__ilshift__', '__irshift__'}
+BINARY_DUNDERS = {'__add__', '__sub__', '__mul__', '__rmul__', '__radd__', '__rsub__', '__truediv__', '__neg__'}
+
+POSITIVE_CONTROL = '''
+class bad_mesh:
+    def __iadd__(self, other):
+        self.values += other.values
+        return self
+    def __add__(self, other):
+        self.values = self.values + other.values
+        return self
+'''
+
+
+def _datatype_classes(repo):
+    out = []
+    for m in repo.modules.values():
+        if m.relpath.startswith(DT) or m.relpath == 'pySDC/projects/DAE/misc/meshDAE.py':
+            for cn in m.classes:
+                out.append(repo.classes[f'{m.name}.{cn}'])
+            # nested classes (particles.position ...)
+            for cn, node in m.classes.items():
+                for sub in node.body:
+                    if isinstance(sub, ast.ClassDef):
+                        out.append(('nested', m, node, sub))
+    return out
+
+
+def _inplace_dunders(classnode):
+    return [f.name for f in classnode.body if isinstance(f, ast.FunctionDef) and f.name in INPLACE_DUNDERS]
+
+
+def _self_stores(fn):
+    """stores into attributes / items of `self` or of another parameter inside a method"""
+    params = [a.arg for a in fn.args.args]
+    out = []
+    for s in walk_no_nested(fn):
+        tg = []
+        if isinstance(s, ast.Assign):
+            tg = s.targets
+        elif isinstance(s, ast.AugAssign):
+            tg = [s.target]
+        for t in tg:
+            root = t
+            while isinstance(root, (ast.Attribute, ast.Subscript)):
+                root = root.value
+            if isinstance(root, ast.Name) and root.id in params and isinstance(t, (ast.Attribute, ast.Subscript)):
+                out.append(ast.unparse(t))
+    return out
+
+
+@rule('C13', 'C13.R1', 'datatypes: no in-place operator, ufuncs never write into `out`, binary operators allocate, copy constructors copy, abs is the max norm', floor=65)
+def r1(ctx, R):
+    repo = ctx.repo
+    # positive control: the detector must fire on an embedded offender
+    pc = ast.parse(POSITIVE_CONTROL).body[0]
+    if _inplace_dunders(pc) != ['__iadd__'] or not _self_stores(pc.body[1]):
+        raise AnalysisError('C13.R1 positive control not detected - the rule is broken')
+    n_cls = 0
+    for item in _datatype_classes(repo):
+        if isinstance(item, tuple):
+            _, m, outer, node = item
+            name, rel = f'{outer.name}.{node.name}', m.relpath
+        else:
+            node, name, rel = item.node, item.name, item.module.relpath
+        n_cls += 1
+        w = f'{rel}:{name}'
+        R.fn(w)
+        d = _inplace_dunders(node)
+        R.check(not d, f'{name} :: defines no in-place operator (x += y must rebind, never write into x)', w, 'no __iadd__/__isub__/...', d)
+        for f in node.body:
+            if not isinstance(f, ast.FunctionDef):
+                continue
+            if f.name == '__array_ufunc__':
+                kwonly = [a.arg for a in f.args.kwonlyargs]
+                fwd = [ast.unparse(c) for c in ast.walk(f) if isinstance(c, ast.Call) and any(k.arg == 'out' or (k.arg is None and ast.unparse(k.value) == 'out') for k in c.keywords)]
+                uses = [n for n in ast.walk(f) if isinstance(n, ast.Name) and n.id == 'out']
+                R.check('out' in kwonly and not fwd and not uses, f'{name}.__array_ufunc__ :: binds `out` by name and drops it', w, 'out=None in the signature, never forwarded', {'kwonly': kwonly, 'forwarded': fwd[:1], 'uses': len(uses)})
+                rets = [ast.unparse(s.value) for s in ast.walk(f) if isinstance(s, ast.Return) and s.value is not None]
+                call = [c for c in ast.walk(f) if isinstance(c, ast.Call) and re.fullmatch(r'super\(.*\)\.__array_ufunc__', ast.unparse(c.func))]
+                okv = len(call) == 1 and any(isinstance(a, ast.Starred) and ast.unparse(a.value) == 'args' for a in call[0].args)
+                R.check(okv, f'{name}.__array_ufunc__ :: the base ufunc runs on plain-array views of the inputs (fresh result, viewed back as the datatype)', w, 'super().__array_ufunc__(ufunc, method, *args, **kwargs).view(type(self))', rets)
+            if f.name in BINARY_DUNDERS:
+                stores = [s for s in _self_stores(f) if re.match(r'(self|other)\b', s)]
+                R.check(not stores, f'{name}.{f.name} :: does not store into an operand', w, 'no store to self.* / other.*', stores)
+                rets = [s.value for s in ast.walk(f) if isinstance(s, ast.Return) and s.value is not None]
+                bad = [ast.unparse(r) for r in rets if isinstance(r, ast.Name) and r.id in ('self', 'other')]
+                R.check(not bad, f'{name}.{f.name} :: returns a new object', w, 'never self/other', bad)
+            if f.name == '__abs__':
+                defs = {ast.unparse(t): ast.unparse(s_.value) for s_ in ast.walk(f) if isinstance(s_, ast.Assign) for t in s_.targets}
+                ok = False
+                for c in ast.walk(f):
+                    if isinstance(c, ast.Call):
+                        fn_ = ast.unparse(c.func)
+                        if re.search(r'(^|\.)a?max$', fn_) and c.args:
+                            arg = ast.unparse(c.args[0])
+                            srcs = [arg] + [defs.get(n.id, '') for n in ast.walk(c.args[0]) if isinstance(n, ast.Name)]
+                            if any('abs' in x for x in srcs):
+                                ok = True
+                        if re.search(r'(^|\.)norm$', fn_):
+                            ok = True
+                R.check(ok, f'{name}.__abs__ :: maximum of element moduli (or a library norm), never a signed reduction', w, 'max(|x_i|) / norm(..)', ast.unparse(f)[-120:].replace('\n', ' '))
+    # copy constructors
+    m = repo.cls(DT + 'mesh.py', 'mesh')
+    new = m.methods.get('__new__')
+    N = Normalizer(new, inline_scalars=False)
+    cp = [c for c in N.contribs if c.guards and c.guards[0] == 'isinstance(init, mesh)']
+    ok = any(c.target == 'obj' and c.rhs.startswith('np.ndarray.__new__(cls, shape=init.shape, dtype=init.dtype') for c in cp) and any(c.target == 'obj[:]' and c.rhs == 'init[:]' for c in cp)
+    R.check(ok, 'mesh.__new__ :: copy construction allocates a new array and copies the values', f'{DT}mesh.py:mesh.__new__', 'obj = ndarray.__new__(..); obj[:] = init[:]', [c.describe() for c in cp])
+    p = repo.cls(DT + 'particles.py', 'particles')
+    N = Normalizer(p.methods['__init__'], inline_scalars=False)
+    cp = {c.target: c.rhs for c in N.contribs if c.guards and c.guards[0] == 'isinstance(init, type(self))'}
+    want = {'self.pos': 'particles.position(init.pos)', 'self.vel': 'particles.velocity(init.vel)', 'self.q': 'init.q.copy()', 'self.m': 'init.m.copy()'}
+    R.check(cp == want, 'particles.__init__ :: copy construction builds new position/velocity meshes and copies q, m', f'{DT}particles.py:particles.__init__', want, cp)
+    if n_cls < 10:
+        raise AnalysisError(f'C13.R1: only {n_cls} datatype classes found')
+
+
+RUNTIME = ('pySDC/core/', 'controller_classes', 'sweeper_classes', 'convergence_controller_classes', 'transfer_classes', '/hooks/', 'projects/DAE/sweepers')
+
+
+def _runtime_functions(repo):
+    for m, ci, fn in repo.all_functions():
+        if any(x in m.relpath for x in RUNTIME):
+            yield m, ci, fn
+
+
+def _slot_analysis(ctx):
+    def build():
+        out = []
+        for m, ci, fn in _runtime_functions(ctx.repo):
+            P = Purity(fn, slots=True)
+            out.append((m, ci, fn, P))
+        return out
+    return ctx.memo('slot_purity', build)
+
+
+@rule('C13', 'C13.R2', 'inventory: augmented assignments whose target aliases a level slot (correct only because datatypes have value semantics)', floor=1)
+def r2(ctx, R):
+    n = 0
+    for m, ci, fn, P in _slot_analysis(ctx):
+        seen = set()
+        for s, name, tags in P.aug_alias:
+            srcs = sorted(t[1][5:] for t in tags if t[0] == 'param' and t[1].startswith('slot:'))
+            if not srcs or (id(s)) in seen:
+                continue
+            seen.add(id(s))
+            n += 1
+            R.ok(f'{qual(m, ci, fn).split(":")[1]} :: `{name} op= ...` where {name} aliases {srcs[0]}', qual(m, ci, fn), found='rebinding by C13.R1 (a datatype with __iadd__ would overwrite the slot)')
+    if n == 0:
+        raise AnalysisError('C13.R2: the alias-augmented-assignment inventory is empty (RungeKuttaIMEX.update_nodes `rhs = lvl.u[0]; rhs += ..` is the confirmed instance)')
+
+
+# in-place writes into level data that are correct because the target object is fresh in the current step (table B4)
+B4 = {
+    ('InterpolateBetweenRestarts.post_spread_processing', 'level.u[m][:]'): 'slot objects were allocated in this SPREAD handler (init_step copy for m=0, predict for m>=1) before post_spread_processing runs',
+    ('InterpolateBetweenRestarts.post_spread_processing', 'level.f[m][:]'): 'same: f slots allocated by predict in the same handler',
+    ('SemiImplicitDAE.update_nodes', 'L.f[m].diff[:]'): 'slot allocated by predict (dtype_f(init)), never shared with another slot',
+    ('SemiImplicitDAE.update_nodes', 'L.u[m].alg[:]'): 'slot allocated by predict (dtype_u(L.u[0]) / dtype_u(init)), never shared',
+    ('SemiImplicitDAE.update_nodes', 'L.u[m + 1].diff[:]'): 'same',
+    ('SemiImplicitDAEMPI.update_nodes', 'L.f[self.rank + 1].diff[:]'): 'same (one node per rank)',
+    ('SemiImplicitDAEMPI.update_nodes', 'L.u[self.rank + 1].alg[:]'): 'same',
+    ('SemiImplicitDAEMPI.update_nodes', 'L.u[self.rank + 1].diff[:]'): 'same',
+    ('FullyImplicitDAEMPI.update_nodes', 'L.f[self.rank + 1][:]'): 'slot allocated by predict',
+    ('RungeKuttaDAE.update_nodes', 'lvl.f[m + 1][:]'): 'slot allocated by predict',
+    ('RungeKuttaDAE.update_nodes', 'lvl.u[m + 1][:]'): 'slot allocated by predict',
+    ('boris_2nd_order.update_nodes', 'L.u[m + 1].pos'): 'attribute rebinding on the slot object allocated by predict; prolong rebinds slots (+=)',
+    ('boris_2nd_order.update_nodes', 'L.u[m + 1].vel'): 'same',
+    ('controller_MPI.recv', 'target.u[0]'): 'u[0] is the copy made by init_step at block start (or a previous receive); never the caller\'s object',
+    ('controller_MPI.run', 'self.S.levels[0].u[0]'): 'the block is over; the u[0] objects are dropped by reset_level in the next restart_block',
+    ('SweeperMPI.communicate_tau_correction_for_full_interval', 'L.tau[-1]'): 'allocated (u_init) on non-root ranks in the same function; root broadcasts its own tau',
+}
+
+
+def _dominating_alloc(fn, hit_node_stmt, slot_text):
+    """an assignment `slot = <constructor>(...)` in the same function that dominates the in-place write"""
+    cfg = FuncCFG(fn)
+    target_node = None
+    for n, s in cfg.stmt_of.items():
+        if s is hit_node_stmt or hit_node_stmt in list(ast.walk(s)) and not isinstance(s, (ast.For, ast.While, ast.If, ast.With, ast.Try)):
+            target_node = n
+            break
+    if target_node is None:
+        return False
+    allocs = []
+    for n, s in cfg.stmt_of.items():
+        if isinstance(s, ast.Assign) and any(ast.unparse(t) == slot_text for t in s.targets) and isinstance(s.value, ast.Call):
+            f = ast.unparse(s.value.func)
+            if re.search(r'(dtype_u|dtype_f|u_init|f_init)$', f) and n != target_node:
+                allocs.append(n)
+    # every path from the entry to the write passes through an allocating assignment of that slot
+    return bool(allocs) and cfg.must_pass('ENTRY', target_node, allocs)
+
+
+@rule('C13', 'C13.R3', 'in-place writes into level data target an object that is fresh in the current step (allocation dominates in the same function, or table B4)', floor=28)
+def r3(ctx, R):
+    seen_table = set()
+    for m, ci, fn, P in _slot_analysis(ctx):
+        fname = (ci.name + '.' if ci else '') + fn.name
+        done = set()
+        for h in P.hits:
+            srcs = sorted(t[1][5:] for t in h.tags if t[0] == 'param' and t[1].startswith('slot:'))
+            if not srcs:
+                continue
+            key = (fname, h.target)
+            if key in done:
+                continue
+            done.add(key)
+            w = qual(m, ci, fn)
+            c = f'{fname} :: in-place write `{h.target}` ({h.detail})'
+            stmt = h.node
+            if _dominating_alloc(fn, stmt, srcs[0]):
+                R.ok(c, w, found=f'{srcs[0]} is assigned from a datatype constructor earlier on every path of this function')
+            elif key in B4:
+                seen_table.add(key)
+                R.exc(c, w, B4[key])
+            else:
+                R.bad(c, w, 'target allocated in this step before the write (dominating constructor assignment, or an entry of table B4 with a reason)', f'{srcs[0]} may be an object that escaped (logged / returned / caller-owned)')
+    missing = set(B4) - seen_table
+    if missing:
+        raise AnalysisError(f'C13.R3: tabled in-place sites not found any more: {sorted(missing)[:3]}')
+
+
+@rule('C13', 'C13.R4', 'escape boundaries copy; uend is only ever rebound to a fresh value', floor=50)
+def r4(ctx, R):
+    repo = ctx.repo
+    # copies at the boundaries
+    rel = 'pySDC/implementations/convergence_controller_classes/store_uold.py'
+    N = Normalizer(repo.func(rel, 'StoreUOld.post_iteration_processing'), inline_scalars=False)
+    st = [c for c in N.contribs if c.target.startswith('L.uold[')]
+    ok = sorted(c.rhs for c in st) == sorted(['P.dtype_u(L.u[i1 - 1])', 'None'])
+    R.check(ok, 'StoreUOld :: uold[i] = dtype_u(u[i]) (a copy, not the iterate itself)', f'{rel}:StoreUOld.post_iteration_processing', 'L.uold[i] = L.prob.dtype_u(L.u[i])', [c.describe() for c in st])
+    base = repo.cls('pySDC/core/sweeper.py', 'Sweeper')
+    for ci in [base] + [c for c in repo.overriders(base, 'predict') if repo.is_library(c) and c is not base]:
+        fn = ci.methods.get('predict')
+        if fn is None:
+            continue
+        w = f'{ci.module.relpath}:{ci.name}.predict'
+        R.fn(w)
+        N = Normalizer(fn)
+        st = [c for c in N.contribs if re.match(r'(L|lvl)\.u\[', c.target) and c.op == '=' and not c.target.endswith('[0]')]
+        bad = [c.describe()[:100] for c in st if not (c.call and re.search(r'(dtype_u|u_init)$', c.call[0])) and c.rhs not in ('P.u_init', 'None') and not re.search(r'u_init|dtype_u|u_exact|zeros', c.rhs or '')]
+        if not st:
+            R.exc(f'{ci.name}.predict :: no node slot assigned here', w, 'delegates / fills slots in place after a super() call')
+            continue
+        R.check(not bad, f'{ci.name}.predict :: every node slot gets its own object (dtype_u(..)), never u[0] itself', w, 'L.u[m] = P.dtype_u(L.u[0]) | P.dtype_u(init, val=..)', bad)
+    # every writer of <level>.uend assigns a fresh value
+    W = ctx.memo('attr_writes', lambda: facts.attr_writes(repo))
+    n = 0
+    for x in W:
+        if x.attr != 'uend' or not any(k in x.module.relpath for k in RUNTIME):
+            continue
+        n += 1
+        rhs = x.rhs()
+        c = f'{(x.cls.name + ".") if x.cls else ""}{x.fn.name} :: {x.target} {x.op} {rhs[:50]}'
+        if x.op == '=':
+            fresh = rhs == 'None' or re.match(r'^[\w\.]*(dtype_u|u_init)\b', rhs) is not None or re.match(r'^P\.dtype_u\(', rhs) is not None
+            if not fresh and re.fullmatch(r'[\w\.]+\.u\[(-1|0)\]', rhs):
+                R.exc(c, x.qual, 'uend is rebound to a node slot object of the same level (alias, no copy): safe because slots are only ever rebound or written in place at the tabled fresh-in-step sites (R3), and uend itself is never written in place outside them')
+                continue
+            R.check(fresh, c, x.qual, 'uend = <datatype constructor>(..) | None', rhs)
+        elif x.op in ('Add=', 'Sub='):
+            R.ok(c, x.qual, found='augmented assignment on the attribute: rebinding by C13.R1')
+        else:
+            R.bad(c, x.qual, 'plain or additive rebinding', x.op)
+    if n < 20:
+        raise AnalysisError(f'C13.R4: only {n} writers of uend found')
+    # the serial run returns / carries uend by reference: safe only with R3 (no in-place write into uend outside the fresh-in-function sites)
+    rel = 'pySDC/implementations/hooks/log_solution.py'
+    fn = repo.func(rel, 'LogSolution.post_step')
+    vals = [ast.unparse(k.value) for c in ast.walk(fn) if isinstance(c, ast.Call) and isinstance(c.func, ast.Attribute) and c.func.attr == 'add_to_stats' for k in c.keywords if k.arg == 'value']
+    R.check(vals == ['L.uend'], 'LogSolution.post_step :: logs L.uend by reference (kept safe by R3/R4: nobody writes into it afterwards)', f'{rel}:LogSolution.post_step', ['L.uend'], vals)
